@@ -751,7 +751,7 @@ func mergeStats(agg, st map[string]any, distinct map[string]map[string]bool) {
 		switch x := v.(type) {
 		case json.Number:
 			if f, err := x.Float64(); err == nil {
-				if k == "wall_s" {
+				if k == "wall_s" || strings.HasPrefix(k, "max_") {
 					if old, _ := agg[k].(float64); f > old {
 						agg[k] = f
 					}
